@@ -119,7 +119,11 @@ def calculateSunVizFraction(tgt_eci_position: ndarray, sun_eci_position: ndarray
         y = sqrt(max(a**2 - x**2, 0.0))
 
         # Montenbruck Eqs. 3.92 & 3.94
-        A = a**2 * safeArccos(x / a) + b**2 * safeArccos((c - x) / b) - c * y  # noqa: N806
+        A = (  # noqa: N806
+            a**2 * arccos(min(1.0, max(-1.0, x / a)))
+            + b**2 * arccos(min(1.0, max(-1.0, (c - x) / b)))
+            - c * y
+        )
 
         # Partial occultation
         # [NOTE]: bounded because the overlap area loses precision near first/last contact
